@@ -260,11 +260,31 @@ def fileop_cases(draw):
         k = draw(st.sampled_from([1, 2, 2, 3, 3, 4]))
         spec['sources'] = []
         for _ in range(k):
-            f = draw(h5ad_files(n_cols=nc, dtype=dtype, layouts=('anndata', 'anndata', 'small_chunks')))
+            mode = draw(st.sampled_from(['any', 'any', 'sorted', 'block', 'block']))
+            if mode == 'block':
+                f = draw(h5ad_files(n_cols=nc, dtype=dtype, layouts=('anndata', 'anndata', 'small_chunks'),
+                                    encs=('csr', 'csc', 'csr', 'csc', 'dense'), min_rows=4))
+            else:
+                f = draw(h5ad_files(n_cols=nc, dtype=dtype, layouts=('anndata', 'anndata', 'small_chunks')))
             nr = len(f['x'])
-            rows = draw(st.lists(st.integers(0, nr - 1), min_size=1, max_size=nr, unique=True))
-            if draw(st.booleans()):
-                rows = sorted(rows)
+            if mode == 'block':
+                # a contiguous range of rows in arbitrary order (all rows shuffled, a block with its interior
+                # swapped, a reversed block ...): the shapes a "this is one slice" shortcut would mistake
+                if draw(st.integers(0, 2)) > 0:
+                    a = draw(st.integers(0, nr - 4))
+                    b = draw(st.integers(a + 4, nr))
+                    inner = list(draw(st.permutations(list(range(a + 1, b - 1)))))
+                    if inner == sorted(inner):
+                        inner = inner[::-1]
+                    rows = [a] + inner + [b - 1]
+                else:
+                    a = draw(st.integers(0, nr - 1))
+                    b = draw(st.integers(a + 1, nr))
+                    rows = list(draw(st.permutations(list(range(a, b)))))
+            else:
+                rows = draw(st.lists(st.integers(0, nr - 1), min_size=1, max_size=nr, unique=True))
+                if mode == 'sorted':
+                    rows = sorted(rows)
             spec['sources'].append({'file': f, 'rows': rows})
         spec['dst_sparse'] = draw(st.booleans())
         spec['compression'] = draw(st.booleans())
